@@ -26,7 +26,7 @@ META = {
     },
     "exhaustive": {"quick": False, "thorough": False},
     "assumptions": ["node names are unique within each tree and drawn from letters, digits and underscores, as the property states"],
-    "timeout": {"quick": 900, "thorough": 7200},
+    "timeout": {"quick": 420, "thorough": 7200},
 }
 
 SPECIAL = ["1", "e5", "O0", "S1", "O1", "S0", "_", "a_b", "X_1", "007", "E", "inf", "nan", "x1e3", "A"]
